@@ -85,8 +85,8 @@ func declKey(d []ref.Decl) string {
 
 // ---- alphabets ----
 
-var chrFull = []string{"a", "1", "2", "_", "'", " ", "\n", ">", "(", ")", "[", "]", "{", "}", ".", ";", ":", "|", ",", "+", "*", "&", "%", "=", "<", "-", "/", "\\", "@", "é", "\x00"}
-var chrSub = []string{"a", "1", "o", " ", "\n", "=", "<", ">", "-", "*", "/", "\\", "@", "\x00", "'", "_"}
+var chrFull = []string{"a", "1", "2", "_", "'", " ", "\n", ">", "(", ")", "[", "]", "{", "}", ".", ";", ":", "|", ",", "+", "*", "&", "%", "=", "<", "-", "/", "\\", "@", "é", "\x00", "\x01", "\x7f"}
+var chrSub = []string{"a", "1", "o", " ", "\n", "=", "<", ">", "-", "*", "/", "\\", "@", "\x00", "'", "_", "\x0c"}
 
 var tokAlphabet = []string{"a", "b", "<-", "=>", "/\\", "\\/", "=", ".", ";", ":", ",", "(", ")", "[", "]", "<", ">", "|",
 	"send", "recv", "receive", "case", "close", "wait", "cast", "shift", "drop", "split", "new", "type", "let", "prc", "fwd", "forward", "self", "print",
@@ -135,7 +135,7 @@ func enumSpaces(c *harness.Ctx, forGrammar bool) []textSpace {
 	// corpus files: prefixes, single deletions, insertions of class representatives
 	progs := Corpus(c)
 	var derived []string
-	ins := []string{"@", "#", "$", "~", "?", "é", "\x00", "`", "\"", ")", ";", "a", "%", "/*", "//", "*/"}
+	ins := []string{"@", "#", "$", "~", "?", "é", "\x00", "\x01", "\x1f", "\x7f", "`", "\"", ")", ";", "a", "%", "/*", "//", "*/"}
 	for _, p := range progs {
 		t := p.Text
 		if len(t) > 700 && !c.Thorough() {
@@ -293,7 +293,7 @@ func quote(s string) string { return fmt.Sprintf("%q", s) }
 var illegalInsert = []string{"@", "#", "$", "~", "?", "é", "\x00", "`", "\""}
 
 func init() {
-	textRule := "all character strings of length <= 3 (quick) / <= 4 (thorough) over 31 scanner character-class representatives (letters, digits, _, ', space, newline, every punctuation the scanner knows, /, \\, an illegal ASCII character, a non-ASCII rune, the byte 0), all strings of length 4 / 5 over a 16-character sub-alphabet that exercises the multi-character tokens and comments, all token strings of length <= 3 / <= 4 over 57 lexemes (one per terminal, synonyms included), for every corpus/example file every prefix, every single-character deletion and every insertion of 16 legal/illegal fragments at every token boundary, all 4096 alias/recursion/mode graphs of three type definitions and all pairs of type definitions with depth-1 bodies as texts, 14 nesting/length families (brackets, right-nested types and terms, parameter/branch/argument lists, many declarations) at every depth 0..140 (quick) / 0..300 (thorough), and two-declaration programs with every comment skeleton of <= 3 pieces (space-separated and adjacent) over {/*, */, *, /, x, //, newline} between the declarations and of <= 2 pieces after them"
+	textRule := "all character strings of length <= 3 (quick) / <= 4 (thorough) over 33 scanner character-class representatives (letters, digits, _, ', space, newline, every punctuation the scanner knows, /, \\, an illegal ASCII character, a non-ASCII rune, the byte 0, a control character, DEL), all strings of length 4 / 5 over a 16-character sub-alphabet that exercises the multi-character tokens and comments, all token strings of length <= 3 / <= 4 over 57 lexemes (one per terminal, synonyms included), for every corpus/example file every prefix, every single-character deletion and every insertion of 19 legal/illegal fragments at every token boundary, all 4096 alias/recursion/mode graphs of three type definitions and all pairs of type definitions with depth-1 bodies as texts, 14 nesting/length families (brackets, right-nested types and terms, parameter/branch/argument lists, many declarations) at every depth 0..140 (quick) / 0..300 (thorough), and two-declaration programs with every comment skeleton of <= 3 pieces (space-separated and adjacent) over {/*, */, *, /, x, //, newline} between the declarations and of <= 2 pieces after them"
 	harness.Register(&harness.Check{
 		ID: "C11", Level: "exploration",
 		Rule:        textRule + "; each text is parsed by the real (fuel-instrumented) parser under the scheduler: it must return (not panic, not block on the error channel), within a fuel bound linear in len(text), with a program or a non-empty error; distinct_nontrivial = distinct texts with at least 2 characters",
